@@ -72,6 +72,7 @@ const (
 	formIfInit
 	formDelete // a dead closure binding or its `_ = name` keep-alive
 	formCond   // a call inside an if condition, hoisted under the guard of its evaluation
+	formRetPart // `return a, h(x)`: the call is one of several results, the others are pure
 )
 
 type inliner struct {
@@ -1614,6 +1615,25 @@ func (in *inliner) emitSite0(s *inlSite) (rope, bool) {
 		pre = append(pre, g("var %s %s\n", tmp, typeStr(sig.Results().At(0).Type(), q))...)
 		wrapOuter = true
 	}
+	if s.form == formRetPart {
+		if sig.Results().Len() != 1 {
+			return nil, false
+		}
+		// the hoisted value must land in a result slot of exactly its type
+		rs := s.stmt.(*ast.ReturnStmt)
+		if s.encl == nil || s.encl.Results().Len() != len(rs.Results) {
+			return nil, false
+		}
+		for i, r := range rs.Results {
+			if r == ast.Expr(s.call) && !types.Identical(s.encl.Results().At(i).Type(), sig.Results().At(0).Type()) {
+				return nil, false
+			}
+		}
+		tmp := fmt.Sprintf("inl_r%d", s.id)
+		lhs = []string{tmp}
+		pre = append(pre, g("var %s %s\n", tmp, typeStr(sig.Results().At(0).Type(), q))...)
+		wrapOuter = true
+	}
 	switch s.form {
 	case formAssign, formIfInit:
 		as, _ := s.stmt.(*ast.AssignStmt)
@@ -1984,6 +2004,19 @@ func (in *inliner) emitSite0(s *inlSite) (rope, bool) {
 		}
 		out = append(out, g("\n}\n")...)
 	}
+	if s.form == formRetPart {
+		rs := s.stmt.(*ast.ReturnStmt)
+		out = append(out, g("return ")...)
+		in.exprRepl[s.call] = g("%s", lhs[0])
+		for i, r := range rs.Results {
+			if i > 0 {
+				out = append(out, g(", ")...)
+			}
+			out = append(out, in.exprText(r)...)
+		}
+		delete(in.exprRepl, s.call)
+		out = append(out, g("\n}\n")...)
+	}
 	in.used[s.id] = true
 	return out, true
 }
@@ -2070,6 +2103,31 @@ func (in *inliner) findSites() {
 					if c, ok := t.Results[0].(*ast.CallExpr); ok {
 						return []cand{{c, formReturn}}
 					}
+				}
+				if len(t.Results) > 1 {
+					// one call among otherwise pure results: hoisting it in front of the return keeps
+					// the order of everything observable
+					var call *ast.CallExpr
+					for _, r := range t.Results {
+						if c, ok := r.(*ast.CallExpr); ok {
+							if tv, isConv := info.Types[c.Fun]; isConv && tv.IsType() {
+								continue
+							}
+							if call != nil {
+								return nil
+							}
+							call = c
+						}
+					}
+					if call == nil {
+						return nil
+					}
+					for _, r := range t.Results {
+						if r != ast.Expr(call) && !in.exprPure(info, r) {
+							return nil
+						}
+					}
+					return []cand{{call, formRetPart}}
 				}
 			case *ast.IfStmt:
 				if as, ok := t.Init.(*ast.AssignStmt); ok && (as.Tok == token.DEFINE || as.Tok == token.ASSIGN) && len(as.Rhs) == 1 {
